@@ -307,6 +307,25 @@ def panic_obligations(F, res, roots, prop_rows, cg=None, grammar=None, crates=No
                         and m0 and _re.search(r"\btx3[a-z_]*", k) and _re.search(r"\btx3[a-z_]*", k).group(0) == m0.group(0)]
                 if alt2:
                     rows[key] = rows[alt2[0]] + " (row of a site that moved here)"
+                else:
+                    # ... or a row *with* premises whose function no longer exists (renamed): the same row speaks for the
+                    # site, its premises re-checked for the function the site is in now
+                    alt3 = [k for k in rows if k not in all_keys and k in row_prems and k.split("|")[0] not in F.fns
+                            and "|".join(k.split("|")[1:]).split("|#")[0] == sg
+                            and m0 and _re.search(r"\btx3[a-z_]*", k) and _re.search(r"\btx3[a-z_]*", k).group(0) == m0.group(0)]
+                    if len(alt3) == 1:
+                        old = alt3[0].split("|")[0]
+
+                        def _ren(v):
+                            if isinstance(v, str):
+                                return p if v == old else v
+                            if isinstance(v, list):
+                                return [_ren(x) for x in v]
+                            if isinstance(v, dict):
+                                return {a: _ren(b) for a, b in v.items()}
+                            return v
+                        rows[key] = rows[alt3[0]] + " (row of a site whose function was renamed from %s)" % old.split("::")[-1]
+                        row_prems[key] = _ren(row_prems[alt3[0]])
         if by is None and key in rows:
             used_rows.add(key)
             if key in row_prems:
